@@ -99,6 +99,29 @@ func scenarioD(H int, withNoPub bool, shapes []int, msgsPerTopic, c int, inFligh
 			}
 			ws[i] = w
 		}
+		// handler 0 may be given a subscriber that its owner has already wrapped in Watermill's own transform decorator
+		// (e.g. to stamp incoming messages): a subscriber like any other, the router adds its context values all the same
+		var preDecorated message.Subscriber
+		if H <= 2 && c < 0 && vs.Choose(2, 0, "handler 0's subscriber is pre-decorated by the caller") == 1 {
+			d, err := message.MessageTransformSubscriberDecorator(func(m *message.Message) { m.Metadata.Set("stamped-by-caller", "yes") })(subs[ws[0].sub])
+			if err != nil {
+				vs.Fail("setup", "%v", err)
+				return
+			}
+			preDecorated = d
+		}
+		subOf := func(hi int, w wiring) message.Subscriber {
+			if hi == 0 && preDecorated != nil {
+				return preDecorated
+			}
+			return subs[w.sub]
+		}
+		subNameOf := func(hi int, w wiring) string {
+			if hi == 0 && preDecorated != nil {
+				return strings.TrimLeft(fmt.Sprintf("%T", preDecorated), "*") // no Stringer: the type name
+			}
+			return subs[w.sub].String()
+		}
 		// one handler may be registered under the empty name (legal: names only have to be distinct)
 		if vs.Choose(2, 0, "handler 0 is unnamed") == 1 {
 			ws[0].name = ""
@@ -130,7 +153,10 @@ func scenarioD(H int, withNoPub bool, shapes []int, msgsPerTopic, c int, inFligh
 				ctx := m.Context()
 				ctxFail("handler name", message.HandlerNameFromCtx(ctx), w.name, w)
 				ctxFail("subscribe topic", message.SubscribeTopicFromCtx(ctx), topics[w.topic], w)
-				ctxFail("subscriber name", message.SubscriberNameFromCtx(ctx), subs[w.sub].String(), w)
+				ctxFail("subscriber name", message.SubscriberNameFromCtx(ctx), subNameOf(hi, w), w)
+				if hi == 0 && preDecorated != nil && m.Metadata.Get("stamped-by-caller") != "yes" {
+					vs.Fail("routing", "handler %s: the caller's own subscriber decorator did not see the message", w.name)
+				}
 				if !w.noPub {
 					ctxFail("publish topic", message.PublishTopicFromCtx(ctx), ptopics[w.ptopic], w)
 					ctxFail("publisher name", message.PublisherNameFromCtx(ctx), pubs[w.pub].String(), w)
@@ -161,12 +187,12 @@ func scenarioD(H int, withNoPub bool, shapes []int, msgsPerTopic, c int, inFligh
 			if w.noPub {
 				var h *message.Handler
 				if w.nilPub {
-					h = r.AddHandler(w.name, topics[w.topic], subs[w.sub], "", nil, func(m *message.Message) ([]*message.Message, error) {
+					h = r.AddHandler(w.name, topics[w.topic], subOf(hi, w), "", nil, func(m *message.Message) ([]*message.Message, error) {
 						_, err := fn(m)
 						return nil, err
 					})
 				} else {
-					h = r.AddNoPublisherHandler(w.name, topics[w.topic], subs[w.sub], func(m *message.Message) error {
+					h = r.AddNoPublisherHandler(w.name, topics[w.topic], subOf(hi, w), func(m *message.Message) error {
 						_, err := fn(m)
 						return err
 					})
@@ -181,7 +207,7 @@ func scenarioD(H int, withNoPub bool, shapes []int, msgsPerTopic, c int, inFligh
 					}
 				})
 			} else {
-				h := r.AddHandler(w.name, topics[w.topic], subs[w.sub], ptopics[w.ptopic], pubs[w.pub], fn)
+				h := r.AddHandler(w.name, topics[w.topic], subOf(hi, w), ptopics[w.ptopic], pubs[w.pub], fn)
 				// a handler-level middleware: it belongs to this handler and must never run around another one
 				h.AddMiddleware(func(next message.HandlerFunc) message.HandlerFunc {
 					return func(m *message.Message) ([]*message.Message, error) {
@@ -220,7 +246,7 @@ func scenarioD(H int, withNoPub bool, shapes []int, msgsPerTopic, c int, inFligh
 						ctx := m.Context()
 						ctxFail("handler name on a produced message", message.HandlerNameFromCtx(ctx), w.name, w)
 						ctxFail("subscribe topic on a produced message", message.SubscribeTopicFromCtx(ctx), topics[w.topic], w)
-						ctxFail("subscriber name on a produced message", message.SubscriberNameFromCtx(ctx), subs[w.sub].String(), w)
+						ctxFail("subscriber name on a produced message", message.SubscriberNameFromCtx(ctx), subNameOf(hi, w), w)
 						ctxFail("publish topic on a produced message", message.PublishTopicFromCtx(ctx), ptopics[w.ptopic], w)
 						ctxFail("publisher name on a produced message", message.PublisherNameFromCtx(ctx), pubs[w.pub].String(), w)
 					}
